@@ -839,4 +839,204 @@ theorem objHeadA_run (pj : PJ) (e : Env) (tmp : Iter) (f : Nat) (rest : List Stm
   | error _ => exact fun h => h
   | diverge => exact fun h => h
 
+/-- `offset := tmp.cur; length := tmp.tape.Tape[tmp.off]; name, err := tmp.tape.stringByteAt(offset, length);
+    if err != nil { return … }` -/
+def objHeadB : List Stmt := [
+  .assign "offset" (.v "tmp.cur"),
+  .assign "length" (.tapeAt "tmp" (.v "tmp.off")),
+  .callAssign ["name", "err"] "tmp" "ParsedJson.stringByteAt" [] [(.v "offset"), (.v "length")],
+  .ite (.bin .ne (.v "err") (.bool false /- nil -/)) [
+    .ret [(.bool true)]] []]
+
+def headBKeys : List String := ["offset", "length", "name", "err", "tmp.lim", "Strings.B", "Message"]
+
+theorem objHeadB_run (pj : PJ) (e : Env) (tmp1 : Iter) (f : Nat) (rest : List Stmt) (hb : BufOK pj)
+    (inv : ItInv pj "tmp" tmp1 e) (hl : tmp1.lim ≤ pj.tape.size) (h2 : tmp1.off + 1 < tmp1.lim) :
+    ∃ w, pj.tape[tmp1.off]? = some w ∧
+      match stringByteAt pj tmp1.cur w with
+      | .ok name => ∃ e', exec goFuns (f + 1) (objHeadB ++ rest) ⟨e, pj.tape⟩ = exec goFuns (f + 1) rest ⟨e', pj.tape⟩ ∧
+          ItInv pj "tmp" tmp1 e' ∧ e'.get "name" = some (.bytes name) ∧ ∀ k, k ∉ headBKeys → e'.get k = e.get k
+      | _ => ∃ e', exec goFuns (f + 1) (objHeadB ++ rest) ⟨e, pj.tape⟩ = .ret ⟨e', pj.tape⟩ [.bool true] := by
+  obtain ⟨g1, g2, g3, g4, g5⟩ := iterAt_get_tmp _ _ inv.it
+  have hlt : tmp1.off < pj.tape.size := by omega
+  refine ⟨pj.tape[tmp1.off], by simp [hlt], ?_⟩
+  generalize hw : pj.tape[tmp1.off] = w
+  have hr : pj.tape[tmp1.off]? = some w := by simp [hlt, hw]
+  have hs1 : exec1 goFuns (f + 1) (.assign "offset" (.v "tmp.cur")) ⟨e, pj.tape⟩ =
+      .normal ⟨e.set "offset" (.u64 tmp1.cur), pj.tape⟩ := by simp [g3]
+  have hs2 : exec1 goFuns (f + 1) (.assign "length" (.tapeAt "tmp" (.v "tmp.off")))
+      ⟨e.set "offset" (.u64 tmp1.cur), pj.tape⟩ =
+      .normal ⟨(e.set "offset" (.u64 tmp1.cur)).set "length" (.u64 w), pj.tape⟩ := by
+    have : (tmp1.off : Int) < tmp1.lim := by omega
+    simp [g1, g5, this, hr]
+  generalize hE2 : (e.set "offset" (.u64 tmp1.cur)).set "length" (.u64 w) = E2 at hs2
+  have inv2 : ItInv pj "tmp" tmp1 E2 := by
+    subst hE2; exact (inv.set _ _ (by decide)).set _ _ (by decide)
+  have hfr2 : ∀ k, k ≠ "offset" → k ≠ "length" → E2.get k = e.get k := by
+    intro k k1 k2
+    subst hE2
+    rw [Env.get_set_ne _ _ (Ne.symm k2), Env.get_set_ne _ _ (Ne.symm k1)]
+  have hcall := callFun_sb ⟨E2, pj.tape⟩ pj "tmp" tmp1.lim (.v "offset") (.v "length") tmp1.cur w f hb
+    (by simpa using (iterAt_get_tmp _ _ inv2.it).2.2.2.2) inv2.sb inv2.ms
+    (by subst hE2; simp) (by subst hE2; simp)
+  simp only [String.reduceAppend] at hcall
+  simp only [objHeadB, List.cons_append, List.nil_append]
+  rw [exec, hs1]
+  simp only []
+  rw [exec, hs2]
+  simp only []
+  rw [exec, exec1, hcall]
+  have hne1 : ("name" == "_") = false := by decide
+  have hne2 : ("err" == "_") = false := by decide
+  rcases stringByteAt_cases pj tmp1.cur w with ⟨name, hn⟩ | hn
+  · rw [hn]
+    simp only [sbVals, assignTargets, hne1, hne2, Bool.false_eq_true, if_false]
+    refine ⟨((((E2.set "tmp.lim" (.int tmp1.lim)).set "Strings.B" (.bytes pj.strings)).set "Message"
+      (.bytes pj.msg)).set "name" (.bytes name)).set "err" (.bool false), ?_, ?_, ?_, ?_⟩
+    · simp [Env.get_set]
+    · refine ItInv.congr inv2 (fun k hk => ?_)
+      simp only [itKeys, fieldsOf, List.mem_cons, List.not_mem_nil, or_false, String.reduceAppend] at hk
+      rcases hk with rfl | rfl | rfl | rfl | rfl | rfl | rfl <;>
+        simp [Env.get_set, inv2.sb, inv2.ms, (iterAt_get_tmp _ _ inv2.it).2.2.2.2]
+    · simp [Env.get_set]
+    · intro k hk
+      simp only [headBKeys, List.mem_cons, List.not_mem_nil, or_false, not_or] at hk
+      obtain ⟨k1, k2, k3, k4, k5, k6, k7⟩ := hk
+      rw [Env.get_set_ne _ _ (Ne.symm k4), Env.get_set_ne _ _ (Ne.symm k3), Env.get_set_ne _ _ (Ne.symm k7),
+        Env.get_set_ne _ _ (Ne.symm k6), Env.get_set_ne _ _ (Ne.symm k5)]
+      exact hfr2 k k1 k2
+  · rw [hn]
+    simp only [sbVals, assignTargets, hne1, hne2, Bool.false_eq_true, if_false]
+    refine ⟨((((E2.set "tmp.lim" (.int tmp1.lim)).set "Strings.B" (.bytes pj.strings)).set "Message"
+      (.bytes pj.msg)).set "name" (.bytes #[])).set "err" (.bool true), ?_⟩
+    simp [Env.get_set]
+
+/-- `t := tmp.Advance(); if t == TypeNone { return nil }` -/
+def objValue : List Stmt := [
+  .callAssign ["t"] "tmp" "Iter.Advance" [] [],
+  .ite (.bin .eq (.v "t") (.u8 0 /- TypeNone -/)) [
+    .ret [(.bool false /- nil -/)]] []]
+
+theorem objValue_run (pj : PJ) (e : Env) (tmp1 : Iter) (f : Nat) (rest : List Stmt) (inv : ItInv pj "tmp" tmp1 e)
+    (hl : tmp1.lim ≤ pj.tape.size) (hf : tmp1.lim + 3 ≤ f) :
+    match tmp1.advance pj with
+    | .ok (tmp2, t) =>
+      exec goFuns (f + 1) (objValue ++ rest) ⟨e, pj.tape⟩ =
+        if t = typeNone then .ret ⟨(advEnv e "tmp" tmp2 pj).set "t" (.u8 t), pj.tape⟩ [.bool false]
+        else exec goFuns (f + 1) rest ⟨(advEnv e "tmp" tmp2 pj).set "t" (.u8 t), pj.tape⟩
+    | .panic => exec goFuns (f + 1) (objValue ++ rest) ⟨e, pj.tape⟩ = .panic
+    | _ => False := by
+  have hA := exec1_advance pj ⟨e, pj.tape⟩ "t" "tmp" rfl tmp1 f hl rfl inv hf
+  revert hA
+  cases tmp1.advance pj with
+  | ok r =>
+    obtain ⟨tmp2, t⟩ := r
+    intro hA
+    simp only [] at hA ⊢
+    have hT : ((advEnv e "tmp" tmp2 pj).set "t" (.u8 t)).get "t" = some (.u8 t) := Env.get_set_self _ _ _
+    simp only [objValue, List.cons_append, List.nil_append]
+    rw [exec, hA]
+    simp only []
+    rw [exec]
+    generalize (advEnv e "tmp" tmp2 pj).set "t" (.u8 t) = E1 at hT ⊢
+    by_cases hn : t = typeNone
+    · subst hn
+      simp [typeNone, hT]
+    · have hn' : (t == 0) = false := by simpa [typeNone] using hn
+      simp [hn, hn', hT]
+  | panic =>
+    intro hA
+    simp only [] at hA ⊢
+    simp only [objValue, List.cons_append, List.nil_append]
+    rw [exec, hA]
+  | error _ => exact fun h => h
+  | diverge => exact fun h => h
+
+/-- `if len(onlyKeys) > 0 { if _, ok := onlyKeys[string(name)]; !ok { t := tmp.Advance(); if t == TypeNone { return nil };
+    continue } }` -/
+def objFilter : Stmt :=
+  .ite (.bin .gt (.lenK (.v "onlyKeys")) (.int 0)) [
+    .assign "ok" (.inK (.v "onlyKeys") (.v "name")),
+    .ite (.not (.v "ok")) [
+      .callAssign ["t"] "tmp" "Iter.Advance" [] [],
+      .ite (.bin .eq (.v "t") (.u8 0 /- TypeNone -/)) [
+        .ret [(.bool false /- nil -/)]] [],
+      .cont] []] []
+
+theorem objFilter_run (pj : PJ) (e : Env) (tmp1 : Iter) (name : Bytes) (ks : List Bytes) (f : Nat) (rest : List Stmt)
+    (inv : ItInv pj "tmp" tmp1 e) (hn : e.get "name" = some (.bytes name)) (hk : e.get "onlyKeys" = some (.keys ks))
+    (hl : tmp1.lim ≤ pj.tape.size) (hf : tmp1.lim + 3 ≤ f) :
+    if ks.length > 0 ∧ (!ks.contains name) = true then
+      match tmp1.advance pj with
+      | .ok (tmp2, t) =>
+        exec goFuns (f + 1) (objFilter :: rest) ⟨e, pj.tape⟩ =
+          if t = typeNone then
+            .ret ⟨(advEnv (e.set "ok" (.bool false)) "tmp" tmp2 pj).set "t" (.u8 t), pj.tape⟩ [.bool false]
+          else .cont ⟨(advEnv (e.set "ok" (.bool false)) "tmp" tmp2 pj).set "t" (.u8 t), pj.tape⟩
+      | .panic => exec goFuns (f + 1) (objFilter :: rest) ⟨e, pj.tape⟩ = .panic
+      | _ => False
+    else ∃ e', exec goFuns (f + 1) (objFilter :: rest) ⟨e, pj.tape⟩ = exec goFuns (f + 1) rest ⟨e', pj.tape⟩ ∧
+      ∀ k, k ≠ "ok" → e'.get k = e.get k := by
+  have hassign : exec1 goFuns (f + 1) (.assign "ok" (.inK (.v "onlyKeys") (.v "name"))) ⟨e, pj.tape⟩ =
+      .normal ⟨e.set "ok" (.bool (ks.contains name)), pj.tape⟩ := by simp [hk, hn]
+  by_cases hlen : ks.length > 0
+  · have hlen' : (0 : Int) < ks.length := by omega
+    have hopen : exec goFuns (f + 1) (objFilter :: rest) ⟨e, pj.tape⟩ =
+        match (match exec1 goFuns (f + 1) (.ite (.not (.v "ok")) (objValue ++ [.cont]) [])
+            ⟨e.set "ok" (.bool (ks.contains name)), pj.tape⟩ with
+          | .normal s' => exec goFuns (f + 1) [] s'
+          | o => o) with
+        | .normal s' => exec goFuns (f + 1) rest s'
+        | o => o := by
+      rw [exec, objFilter, exec1]
+      simp only [evalE, hk, hlen', binop, decide_true]
+      rw [exec, hassign]
+      simp only []
+      rw [exec]
+      rfl
+    rw [hopen]
+    cases hc : ks.contains name with
+    | false =>
+      have hcond : ks.length > 0 ∧ (!false) = true := ⟨hlen, rfl⟩
+      rw [if_pos hcond]
+      have inv1 : ItInv pj "tmp" tmp1 (e.set "ok" (.bool false)) := inv.set _ _ (by decide)
+      have hV := objValue_run pj (e.set "ok" (.bool false)) tmp1 f [.cont] inv1 hl hf
+      have hite : exec1 goFuns (f + 1) (.ite (.not (.v "ok")) (objValue ++ [.cont]) [])
+          ⟨e.set "ok" (.bool false), pj.tape⟩ = exec goFuns (f + 1) (objValue ++ [.cont]) ⟨e.set "ok" (.bool false), pj.tape⟩ := by
+        rw [exec1]
+        simp only [evalE, Env.get_set_self, Bool.not_false]
+      rw [hite]
+      revert hV
+      cases tmp1.advance pj with
+      | ok r =>
+        obtain ⟨tmp2, t⟩ := r
+        intro hV
+        simp only [] at hV ⊢
+        rw [hV]
+        by_cases ht : t = typeNone
+        · simp [ht]
+        · simp [ht]
+      | panic =>
+        intro hV
+        simp only [] at hV ⊢
+        rw [hV]
+      | error _ => exact fun h => h
+      | diverge => exact fun h => h
+    | true =>
+      have hcond : ¬ (ks.length > 0 ∧ (!true) = true) := by simp
+      rw [if_neg hcond]
+      refine ⟨e.set "ok" (.bool true), ?_, fun k hk' => Env.get_set_ne _ _ (Ne.symm hk')⟩
+      have hite : exec1 goFuns (f + 1) (.ite (.not (.v "ok")) (objValue ++ [.cont]) [])
+          ⟨e.set "ok" (.bool true), pj.tape⟩ = .normal ⟨e.set "ok" (.bool true), pj.tape⟩ := by
+        rw [exec1]
+        simp only [evalE, Env.get_set_self, Bool.not_true, exec]
+      rw [hite]
+      simp only [exec]
+  · have hcond : ¬ (ks.length > 0 ∧ (!ks.contains name) = true) := fun h => hlen h.1
+    have hlen' : ¬ (0 : Int) < ks.length := by omega
+    rw [if_neg hcond]
+    refine ⟨e, ?_, fun _ _ => rfl⟩
+    rw [exec, objFilter, exec1]
+    simp only [evalE, hk, hlen', binop, decide_false, exec]
+
 end SJ.GoDelete
